@@ -276,6 +276,7 @@ type Verifier struct {
 	repoRoot     string
 	effects      map[string]*Effects
 	fieldContent map[string]string // "pkg.Type.field" -> content heap key of its pointee / map
+	assignedIn   map[string][]string // field -> functions that assign it directly
 }
 
 func funcKey(pkgName string, fd *ast.FuncDecl) string {
@@ -742,6 +743,11 @@ func (c *FnCtx) loadField(st *State, ref string, owner string, path string, ft t
 	h := c.heapGet(st, key, s)
 	v := &Val{T: tApp("select", h, ref), S: s, Typ: ft}
 	c.typeFacts(st, v)
+	if c.V.specs.FieldInv[key] == "nonnil" && s == SInt {
+		// constructor-established, never reassigned: holds for every object that exists
+		st.assume(tOr(tEq(ref, "0"), tNot(tEq(v.T, "0"))))
+		c.assumeNote("field invariant " + key + " != nil (assigned only by constructors; checked syntactically)")
+	}
 	return v
 }
 
